@@ -31,9 +31,11 @@ def workload(rng, n):
     items = []
     d = lambda k: rnd_digits(rng, k)  # noqa: E731
     kb_cache = []
+    shared_kbpks = [rng.randbytes(16), rng.randbytes(24)]
     for v in "ABCD":
         for _ in range(6):
             c = t.gen_case(rng, version=v, profile=rng.choice(["none", "few"]), keylen=16, mask=None)
+            c["kbpk"] = shared_kbpks[len(kb_cache) % 2]      # two KBPKs (16 / 24 bytes) shared by blocks of every version
             kb_cache.append((c["kbpk"], tr31.wrap(c["kbpk"], t.impl_header(c), c["key"])))
     while len(items) < n:
         k = rng.randrange(16)
@@ -138,6 +140,25 @@ def run(ctx):
             viol.append({"what": "a header returned by an earlier unwrap was changed by later calls",
                          "input": {"fn": "tr31.unwrap", "args": [str(a)[:80] for a in it[1]]}, "expected": txt[:100], "observed": core.show_header(h)[:100]})
             break
+    # TR-31 unwrap through ONE KeyBlock object per KBPK, reused for every block of every version in workload order:
+    # same result as the module-level unwrap on a fresh object
+    reused = {}
+    for it, r in zip(items, ref):
+        if it[0] != "tr31.unwrap":
+            continue
+        kbpk, text = it[1]
+        kbo = reused.setdefault(bytes(kbpk), tr31.KeyBlock(bytes(kbpk)))
+        try:
+            key = kbo.unwrap(text)
+            got = ("OK", core.show_header(kbo.header), core.show(key))
+        except Exception as e:  # noqa: BLE001
+            got = ("ERR", core.bucket(e))
+        dist["tr31.unwrap on a reused KeyBlock"] = dist.get("tr31.unwrap on a reused KeyBlock", 0) + 1
+        if got != r:
+            viol.append({"what": "unwrap on a KeyBlock that earlier unwrapped other blocks differs from unwrap on a fresh object",
+                         "input": {"fn": "tr31.unwrap", "args": [str(a)[:120] for a in it[1]]}, "expected": str(r)[:160], "observed": str(got)[:160]})
+            if len(viol) > 20:
+                break
     # repetition
     for it, r in zip(items[:300], ref):
         if call(it) != r:
